@@ -28,17 +28,19 @@ def run(ctx, spec, out):
     nid = 0
     for wi in range(nworlds):
         pool = {}
+        pool_flags = {}
 
         def backend(i):
             if i not in pool:
-                wb, _ = worldfam.small_world(rng, schema, {"nhosts": [1, 2]})
+                wb, fl = worldfam.small_world(rng, schema, {"nhosts": [1, 2]})
+                pool_flags[i] = fl
                 wb["id"], wb["name"], wb["sources"], wb["flags"] = "b%d" % i, "Backend %d" % i, ["self"], []
                 pool[i] = wb
             return pool[i]
 
         def conn(c):
             wb = backend(int(c["id"][1:]))
-            return {"id": c["id"], "name": c["name"], "sources": list(c["sources"]), "flags": [], "tables": wb["tables"]}
+            return {"id": c["id"], "name": c["name"], "sources": list(c["sources"]), "flags": list(c.get("flags", [])), "tables": wb["tables"]}
 
         conns = [{"id": "b%d" % i, "name": "Backend %d" % i, "sources": ["self"]} for i in range(rng.choice([1, 2, 2, 3]))]
         listen = ["l1"] if rng.random() < 0.7 else ["l1", "l2"]
@@ -51,7 +53,7 @@ def run(ctx, spec, out):
         script = ["sources2", "noop", "trim", "noop", "sources2", "trim"] if wi == 0 else None
         for si in range(len(script) if script else rng.choice([2, 4, 6])):
             old_conns, old_listen = json.loads(json.dumps(conns)), list(listen)
-            kind = script[si] if script else rng.choice(["noop", "add", "remove", "rename", "resource", "reorder", "listener", "noop", "readd", "multi", "sources2", "trim", "trim"])
+            kind = script[si] if script else rng.choice(["noop", "add", "remove", "rename", "resource", "reorder", "listener", "noop", "readd", "multi", "sources2", "trim", "trim", "flags"])
             edits = [kind] if kind != "multi" else [rng.choice(["add", "remove", "rename", "resource", "reorder", "listener", "sources2", "trim"]) for _ in range(2)]
             for e in edits:
                 if e == "add" and len(conns) < 4:
@@ -82,6 +84,13 @@ def run(ctx, spec, out):
                         c["sources"] = ["dead"]
                     else:
                         c["sources"] = ["self"]
+                elif e == "flags":
+                    # the flags of a connection are part of its definition: a changed list means a new peer
+                    # (a flag the backend has anyway: a flag it does not have makes lmd ask for columns the backend rejects)
+                    cands = [c for c in conns if c["sources"][0] == "self" and "Naemon" in pool_flags.get(int(c["id"][1:]), [])]
+                    if cands:
+                        c = rng.choice(cands)
+                        c["flags"] = [] if c.get("flags") else ["naemon"]
                 elif e == "sources2":
                     # a second address: a dead one before or behind the backend's own
                     c = rng.choice(conns)
